@@ -1,11 +1,15 @@
 """C12 — LDM behaves as a store of objects with registration gating and expiry.
 
-Theorems: lean/Props/C12.lean about lean/FlexModel/Ldm/Store.lean (Impl) and lean/FlexModel/Ldm/Spec.lean (map machine).
-Tie: random histories of register/deregister/add/update/delete/request/maintain/advance through a real
+Theorems: lean/Props/C12.lean about lean/FlexModel/Ldm/Store.lean (Impl) and lean/FlexModel/Ldm/Spec.lean (reference map
+with the area rule, the gating and the reactive trigger as parameters; written independently of the Impl).
+Tie: random and scripted histories of register/deregister/add/update/delete/request/maintain/advance through a real
 LDMFactory-built facility (Dictionary back-end, Reactive maintenance and service, virtual clocks), line by line
-against the Lean model.  Oracle: `Ref` below, a reference map written from the property text (independent of the
-code and of the Lean model), which judges every response and, after every step, the database content and the
-registries (frame).
+against the Lean model; after EVERY operation additionally the `state` line (identifier counter of the real database,
+both real registries, ids of the stored rows) and after maintenance passes / at the end the `dump` line (all rows).
+Oracle: `Ref` below, a reference map written from the property text (independent of the code and of the Lean model):
+it decides itself whether a registration has to be accepted, judges every response and, after every step, the
+database content and both registries (frame).  Objects are generated inside, on the border of and outside the LDM's
+own area of maintenance.
 """
 from __future__ import annotations
 
@@ -21,7 +25,8 @@ TRUSTED = [
     "squared integer distances; every threshold is exercised at t*t-1, t*t); Python dict equality of stored records "
     "(`remove(data_object)`), modelled as structural equality",
     "harness/ldm_common.py: serialisation of Python objects to the line protocol, virtual clocks (TimeService.time, "
-    "time.monotonic inside ldm_*_reactive) in steps of 125 ms so that float seconds are exact",
+    "time.monotonic inside ldm_*_reactive) in steps of 125 ms so that float seconds are exact; the `state` line reads "
+    "DictionaryDataBase._next_id / .database and LDMService.data_provider_its_aid / data_consumer_its_aid",
 ]
 ASSUMPTIONS = [
     "Dictionary back-end, Reactive maintenance and service built by LDMFactory; single thread (C16 covers concurrency)",
@@ -29,22 +34,32 @@ ASSUMPTIONS = [
     "reactive collection (documented behaviour of LDMMaintenanceReactive); between expiry and the next maintenance run "
     "an object may or may not be returned",
     "data objects are dictionaries; an object's type is its first top-level key naming a data object type",
-    "objects are judged as 'must be kept' wherever they are located: the property text has no area-of-maintenance "
-    "exception (known finding C12-KF1 covers what the area collection deletes today)",
+    "the LDM's own location / area of maintenance is fixed for a history: the property's histories contain no "
+    "operation that moves it (LDMMaintenance.update_area_of_maintenance and Location.location_service_callback are "
+    "neither modelled nor exercised)",
+    "area of maintenance: the property text has no area exception, so for the code as it is every object 'must be "
+    "kept' wherever it is located and what the area collection deletes today is reported under known finding C12-KF1 "
+    "(only when the loss happens AT a maintenance pass and the object lies in the KF1 region); for a tree with the "
+    "area test repaired, objects OUTSIDE the area (EN 302 895 5.3.2) may be discarded at a maintenance pass",
     "known finding C12-KF1: the area-of-maintenance collection deletes objects NEAR the LDM position (inverted test, "
     "`^` used as power) - pinned by tests/.../test_ldm_maintenance.py::test_check_and_delete_area_of_maintenance",
     "known finding C12-KF2: update/delete are accepted from applications that are not registered providers - pinned "
     "by tests/.../test_if_ldm_3.py (MagicMock service: any registration check fails the pinned SUCCEED expectations)",
+    "registration rule of the oracle (EN 302 895 6.2.1 / 6.3.1 as far as the facility can decide it without the "
+    "security entity): known ITS-AID (1..21), non-empty permission list covering the application's own type; DENM "
+    "providers/consumers and SPATEM/MAPEM consumers are always permitted",
 ]
 
 APPS = [1, 2, 16, 5, 14, 3, 0, 22, 35]
+SMALL_AIDS = [1, 2, 3, 4, 5, 6, 14, 16]     # valid ITS-AIDs that object identifiers of a short history run through
 TYPE_NAMES = {1: "denm", 2: "cam", 3: "poi", 4: "spatem", 5: "mapem", 6: "ivim", 14: "cpm", 16: "vam", 20: "payload"}
-REL_LESS = {0: 50, 1: 100, 2: 200, 3: 500, 4: 1000, 5: 5000, 6: 10000}     # property-independent: only used to
-REL_GREATER = {7: 20000}                                                     # *classify* C12-KF1 cases
+REL_LESS = {0: 50, 1: 100, 2: 200, 3: 500, 4: 1000, 5: 5000, 6: 10000}     # EN 302 895 / TS 102 894-2
+REL_GREATER = {7: 20000}                                                     # RelevanceDistance thresholds (m)
 MAX_ALT = 15
+DENM, SPATEM, MAPEM = 1, 4, 5
 
 
-# ------------------------------------------------------------------------------------ known-finding signatures
+# ------------------------------------------------------------------------------------ area of maintenance
 
 def within(rel, cfg, loc):
     n = (loc["lat"] - cfg["lat"]) ** 2 + (loc["lon"] - cfg["lon"]) ** 2
@@ -53,13 +68,18 @@ def within(rel, cfg, loc):
     return n >= (REL_GREATER[rel] + 1) ** 2
 
 
+def in_area(cfg, loc):
+    """inside the LDM's area of maintenance as EN 302 895 5.3.2 means it"""
+    return within(cfg["relDist"], cfg, loc) and (loc["alt"] - cfg["alt"]) ** 2 < MAX_ALT
+
+
 def area_deletes_as_is(cfg, loc):
     """signature of C12-KF1: the region in which the code as it is deletes at a collection"""
     return within(cfg["relDist"], cfg, loc) and ((loc["alt"] - cfg["alt"]) ^ 2) < MAX_ALT
 
 
 def area_deletes_repaired(cfg, loc):
-    return not (within(cfg["relDist"], cfg, loc) and (loc["alt"] - cfg["alt"]) ** 2 < MAX_ALT)
+    return not in_area(cfg, loc)
 
 
 # ------------------------------------------------------------------------------------ reference model (oracle)
@@ -86,18 +106,26 @@ def TYPE_TABLE():
     return _TT
 
 
+def registration_valid(app, perms, consumer):
+    """must this registration be accepted?  Decided by the oracle, not read off the code's answer."""
+    if app not in TYPE_TABLE() or len(perms) == 0:
+        return False
+    return app in perms or app == DENM or (consumer and app in (SPATEM, MAPEM))
+
+
 class Ref:
     """Reference map `id -> object` with registrations, expiry and never-reused ids, from the property text."""
 
-    def __init__(self, cfg):
+    def __init__(self, cfg, area_fixed=False):
         self.cfg = cfg
-        self.objs = collections.OrderedDict()     # id -> dict(rec=..., expiry=its ms, lost=False)
+        self.area_fixed = area_fixed              # which variant of C12-KF1 the tree matches (run-time witness)
+        self.objs = collections.OrderedDict()     # id -> dict(tok, expiry, type, loc, fields, area_may)
         self.ever = set()
         self.providers, self.consumers = set(), set()
         self.utc, self.mono = L.UTC0_MS, L.MONO0_MS
         self.last_gc_mono = L.MONO0_MS
-        self.gone = {}                            # id -> reason ("deleted" / "collected")
-        self.may = set()                          # ids expired but not yet collected
+        self.gone = {}                            # id -> reason ("deleted" / "collected" / "area-collected")
+        self.at_maintenance = False               # did the operation being judged run a maintenance pass?
 
     def now(self):
         return L.now_its(self.utc)
@@ -107,10 +135,15 @@ class Ref:
         return "{" + f"{app} {ts} {L.loc_tokens(loc)} {validity} {objser}" + "}"
 
     def _maintain(self):
+        self.at_maintenance = True
         now = self.now()
         for i in [i for i, o in self.objs.items() if o["expiry"] < now]:
             del self.objs[i]
             self.gone[i] = "collected"
+        if self.area_fixed:
+            for o in self.objs.values():
+                if not in_area(self.cfg, o["loc"]):
+                    o["area_may"] = True          # EN 302 895 5.3.2: outside the area of maintenance -> may be discarded
 
     def expected_sets(self, types=None):
         """(must, may) multisets of record tokens an observer has to / is allowed to see"""
@@ -119,7 +152,7 @@ class Ref:
         for i, o in self.objs.items():
             if types is not None and o["type"] not in types:
                 continue
-            (may if o["expiry"] < now else must)[o["tok"]] += 1
+            (may if (o["expiry"] < now or o["area_may"]) else must)[o["tok"]] += 1
         return must, may
 
     def step(self, op, line):
@@ -127,14 +160,19 @@ class Ref:
         bad = []
         n = op[0]
         head = line.split(" ")
+        self.at_maintenance = False
         if head[0] == "x":
             bad.append((f"{n}: exception {head[1]} escaped the interface", None))
         if n in ("regp", "regc"):
             reg = self.providers if n == "regp" else self.consumers
-            if head == ["c", "0"]:
+            valid = registration_valid(op[1], op[2], n == "regc")
+            if valid:
                 reg.add(op[1])
-            elif head[0] != "c":
-                bad.append((f"{n}: no result", None))
+                if head != ["c", "0"]:
+                    bad.append((f"{n} {op[1]} {op[2]}: a valid registration was not accepted: {head}", None))
+            elif head == ["c", "0"] or head[0] != "c":
+                bad.append((f"{n} {op[1]} {op[2]}: an invalid registration (unknown ITS-AID / permissions not covering "
+                            f"the application) was answered {head}", None))
         elif n in ("deregp", "deregc"):
             reg = self.providers if n == "deregp" else self.consumers
             want = "0" if op[1] in reg else "1"
@@ -185,7 +223,8 @@ class Ref:
                     del self.objs[i]
                     self.gone[i] = "deleted"
                 else:
-                    bad.append((f"delete {i} by {app} reported success but must be refused", None))
+                    bad.append((f"delete {i} by {app} reported success but must be refused"
+                                + (f" (identifier {i} was {self.gone[i]} before)" if i in self.gone else ""), None))
             elif should and not ok:
                 bad.append((f"delete {i} by registered provider {app} refused: {head}", None))
             elif should:
@@ -213,7 +252,7 @@ class Ref:
     def _insert(self, i, app, ts, loc, validity, objser):
         self.ever.add(i)
         self.objs[i] = {"tok": self.rec_token(app, ts, loc, validity, objser), "expiry": ts + validity * 1000,
-                        "type": obj_type(objser), "loc": loc, "fields": (app, ts, loc, validity)}
+                        "type": obj_type(objser), "loc": loc, "fields": (app, ts, loc, validity), "area_may": False}
 
     def _replace(self, i, objser):
         o = self.objs[i]
@@ -230,7 +269,10 @@ class Ref:
         for tok, k in missing.items():
             ids = [i for i, o in self.objs.items() if o["tok"] == tok]
             fid = None
-            if ids and all(area_deletes_as_is(self.cfg, self.objs[i]["loc"]) for i in ids):
+            # C12-KF1 only explains a loss that happens AT a maintenance pass, of objects inside the KF1 region, on a
+            # tree that still has the area test as written
+            if (ids and self.at_maintenance and not self.area_fixed
+                    and all(area_deletes_as_is(self.cfg, self.objs[i]["loc"]) for i in ids)):
                 fid = "C12-KF1"
             bad.append((f"{where}: object {ids} not returned although added, not deleted and not expired", fid))
             if fid:                                 # follow the code so that one loss is reported once
@@ -240,6 +282,16 @@ class Ref:
         for tok, k in extra.items():
             bad.append((f"{where}: returned an object that is deleted, expired-and-collected, of another type or "
                         f"never added: {tok[:80]}", None))
+        if types is None:
+            # objects the reference allowed to be discarded for the area rule and that are gone now stay gone
+            left = seen - must
+            for i in [i for i, o in self.objs.items() if o["area_may"]]:
+                tok = self.objs[i]["tok"]
+                if left[tok] > 0:
+                    left[tok] -= 1
+                else:
+                    self.gone[i] = "area-collected"
+                    del self.objs[i]
         return bad
 
     def judge_registries(self, providers, consumers):
@@ -255,35 +307,49 @@ class Ref:
 
 # ------------------------------------------------------------------------------------ running histories
 
+def wants_dump(hist, k):
+    """after which operations the whole row list is compared with the model (maintenance passes, the last op)"""
+    return hist["ops"][k][0] == "gc" or k == len(hist["ops"]) - 1
+
+
 def run_real(hist, with_state=True):
-    """real facility on a history; returns (lines, states) with states[i] = (stored tokens, providers, consumers)"""
+    """real facility on a history; returns (lines, states) with states[i] = (stored tokens, providers, consumers,
+    state line)"""
     lines, states = [], []
     with L.RealLdm(hist["cfg"]) as r:
-        for op in hist["ops"]:
+        for k, op in enumerate(hist["ops"]):
             lines.append(r.apply(op))
             if with_state:
                 states.append(([L.ser_record(d) for d in r.stored()],
                                sorted(r.ldm.ldm_service.data_provider_its_aid),
-                               sorted(r.ldm.ldm_service.data_consumer_its_aid)))
+                               sorted(r.ldm.ldm_service.data_consumer_its_aid),
+                               r.state_line(full=wants_dump(hist, k))))
     return lines, states
 
 
-def judge(hist, lines, states):
+def judge(hist, lines, states, variants=None):
     """oracle over a whole recorded run; returns [(index, what, finding)]"""
-    ref = Ref(hist["cfg"])
+    if variants is None:
+        variants = detect_variants()
+    ref = Ref(hist["cfg"], area_fixed=bool(variants["areaFixed"]))
     out = []
     for k, (op, line) in enumerate(zip(hist["ops"], lines)):
         bad = ref.step(op, line)
         if states:
-            stored, prov, cons = states[k]
+            stored, prov, cons = states[k][:3]
             bad += ref.judge_view(collections.Counter(stored), None, "database content")
             bad += ref.judge_registries(prov, cons)
         out += [(k, w, f) for w, f in bad]
     return out
 
 
+_VARIANTS = {}
+
+
 def detect_variants():
     """which variant of the two known findings does the code match today? (run the witnesses)"""
+    if _VARIANTS:
+        return dict(_VARIANTS)
     cfg = {"lat": 415000000, "lon": 21000000, "alt": 0, "relDist": 4}
     at_ldm = dict(lat=cfg["lat"], lon=cfg["lon"], majC=0, minC=0, majO=0, alt=0, altC=0, radius=0, relDist=4, relDir=0)
     obj = L.ser({"cam": {"generationDeltaTime": 1}})
@@ -294,32 +360,49 @@ def detect_variants():
            ["deregp", 2], ["del", 2, 0]]
     lines, states = run_real({"cfg": cfg, "ops": ops})
     gated = lines[-1] != "c 0"
-    return {"areaFixed": int(area_fixed), "gated": int(gated), "uniqueIds": 0}
+    _VARIANTS.update({"areaFixed": int(area_fixed), "gated": int(gated), "uniqueIds": 0})
+    return dict(_VARIANTS)
+
+
+def state_differs(real, model):
+    """compare two `state` / `dump` lines field by field; a field the real side could not read (`?`) is skipped"""
+    a, b = real.split(" "), model.split(" ")
+    if len(a) != len(b):
+        return True
+    return any(x != y and not x.endswith("=?") for x, y in zip(a, b))
 
 
 def check_history(ctx, hist, variants, tag, model_lines=None):
     """run one history on the real code, judge it, compare with the model output (if given)"""
     lines, states = run_real(hist)
     ctx.evals(len(lines))
-    for k, what, fid in judge(hist, lines, states):
+    for k, what, fid in judge(hist, lines, states, variants):
         ctx.violation(f"{tag}: op {k} {hist['ops'][k][0]}: {what}",
                       {"kind": "history", "cfg": hist["cfg"], "ops": hist["ops"][:k + 1]}, fid)
     if model_lines is not None:
-        for k, (a, b) in enumerate(zip(lines, model_lines)):
+        for k, (a, st) in enumerate(zip(lines, states)):
+            b, bs = model_lines[2 * k], model_lines[2 * k + 1]
             if a != b:
                 ctx.mismatch("ldm.history", {"cfg": hist["cfg"], "ops": hist["ops"][:k + 1]}, a[:400], b[:400])
                 break
+            if state_differs(st[3], bs):
+                ctx.mismatch("ldm.state", {"cfg": hist["cfg"], "ops": hist["ops"][:k + 1]}, st[3][:400], bs[:400])
+                break
+            ctx.cover("state_lines_compared")
     return lines
 
 
 def model_outputs(ctx, hists, variants):
+    """per history: [answer line, state/dump line] per operation"""
     if not ctx.model_ok:
         return [None] * len(hists)
     lines, spans = [], []
     for h in hists:
         lines.append(L.init_line(h["cfg"], variants))
-        spans.append((len(lines), len(h["ops"])))
-        lines += [L.op_line(op) for op in h["ops"]]
+        spans.append((len(lines), 2 * len(h["ops"])))
+        for k, op in enumerate(h["ops"]):
+            lines.append(L.op_line(op))
+            lines.append("dump" if wants_dump(h, k) else "state")
     out = ctx.model("Ldm", lines)
     if any(o == "bad-op" for o in out):
         k = next(i for i, o in enumerate(out) if o == "bad-op")
@@ -342,63 +425,76 @@ def small_message(rng, t=None):
     return L.ser(body)
 
 
-def gen_loc(rng, cfg, variants, want_safe=True):
-    """a location that the detected variant's area collection keeps (safe) or deletes"""
-    deletes = area_deletes_repaired if variants["areaFixed"] else area_deletes_as_is
+def gen_loc(rng, cfg, region=None):
+    """a location inside ("in"), on the border of ("border") or outside ("out") the LDM's relevance distance, with
+    altitude differences on both sides of every constant of the altitude test (0..3, 12..17, +-, far)"""
     rel = cfg["relDist"]
     t = REL_LESS.get(rel, REL_GREATER.get(rel))
-    for _ in range(200):
-        d = rng.choice([0, 1, t - 1, t, t + 1, 2 * t, rng.randrange(0, 3 * t), rng.randrange(0, 10 ** 7)])
-        if rng.random() < 0.5:
-            dlat, dlon = d, 0
-        else:
-            dlat = rng.randrange(0, d + 1)
-            dlon = int(max(0, d * d - dlat * dlat) ** 0.5)
-        loc = dict(lat=cfg["lat"] + rng.choice([-1, 1]) * dlat, lon=cfg["lon"] + rng.choice([-1, 1]) * dlon,
-                   majC=rng.choice([0, 1, 4095]), minC=rng.choice([0, 2, 4095]), majO=rng.choice([0, 3, 3601]),
-                   alt=cfg["alt"] + rng.choice([0, 0, 1, 2, 3, 4, -1, -3, 13, 14, 15, 16, 17, 100, -100, 800001]),
-                   altC=rng.choice([0, 15]), radius=rng.choice([0, 2000]), relDist=rng.randrange(0, 8),
-                   relDir=rng.randrange(0, 4))
-        if deletes(cfg, loc) != want_safe:
-            return loc
-    raise Infra("no location found")
+    region = region or rng.choice(["in", "in", "border", "out", "out"])
+    if region == "in":
+        d = rng.choice([0, 0, 1, t // 3, rng.randrange(0, max(1, t - 1))])
+    elif region == "border":
+        d = rng.choice([t - 1, t, t + 1])
+    else:
+        d = rng.choice([2 * t, rng.randrange(t + 2, 3 * t + 3), rng.randrange(0, 10 ** 7), 10 ** 6])
+    if rng.random() < 0.5:
+        dlat, dlon = d, 0
+    else:
+        dlat = rng.randrange(0, d + 1)
+        dlon = int(max(0, d * d - dlat * dlat) ** 0.5)
+    return dict(lat=cfg["lat"] + rng.choice([-1, 1]) * dlat, lon=cfg["lon"] + rng.choice([-1, 1]) * dlon,
+                majC=rng.choice([0, 1, 4095]), minC=rng.choice([0, 2, 4095]), majO=rng.choice([0, 3, 3601]),
+                alt=cfg["alt"] + rng.choice([0, 0, 1, 2, 3, 4, -1, -3, -4, 12, 13, 14, 15, 16, 17, 100, -100, 800001]),
+                altC=rng.choice([0, 15]), radius=rng.choice([0, 2000]), relDist=rng.randrange(0, 8),
+                relDir=rng.randrange(0, 4))
 
 
-def gen_history(rng, n_ops, variants, pool):
+def gen_history(rng, n_ops, variants, pool, mode=None):
+    """mode "mixed": everything; "collide": several providers with small ITS-AIDs, many objects, updates / deletes
+    aimed at identifiers that equal registered ITS-AIDs; "expire": short validities, long clock advances so that
+    maintenance passes empty the store, then adds and operations on stale identifiers"""
+    mode = mode or rng.choice(["mixed", "mixed", "mixed", "collide", "expire"])
     cfg = {"lat": rng.choice([415000000, -338000000, 0]), "lon": rng.choice([21000000, -1234567, 0]),
            "alt": rng.choice([0, 120, -50]), "relDist": rng.choice([0, 1, 2, 3, 4, 4, 5, 6, 7])}
     ops = []
     utc = L.UTC0_MS
     next_id = 0
-    apps = [rng.choice([1, 2, 16, 5, 14])] + rng.sample(APPS, 3) + [2]
-    prov, live, types_of = set(), [], {}        # rough bookkeeping, only to bias the choices below
-
-    def valid_reg(app, perms, consumer):
-        return 1 <= app <= 21 and bool(perms) and (app in perms or app == 1 or (consumer and app in (4, 5)))
-    for a in apps[:2]:
+    if mode == "collide":
+        apps = rng.sample(SMALL_AIDS, 4) + [rng.choice(APPS)]
+        n_reg = 4
+    else:
+        apps = [rng.choice([1, 2, 16, 5, 14])] + rng.sample(APPS, 3) + [2]
+        n_reg = 2
+    prov, live, types_of, stale = set(), [], {}, []        # rough bookkeeping, only to bias the choices below
+    for a in apps[:n_reg]:
         ops.append(["regp", a, [a]])
         ops.append(["regc", a, [a, 1]])
-        if valid_reg(a, [a], False):
+        if registration_valid(a, [a], False):
             prov.add(a)
+    p_add = {"mixed": 0.32, "collide": 0.42, "expire": 0.30}[mode]
+    region_bias = rng.choice([None, None, "in", "out"])      # some histories keep most objects on one side
     while len(ops) < n_ops:
         x = rng.random()
-        app = rng.choice(apps[:2]) if rng.random() < 0.7 else rng.choice(apps)
+        app = rng.choice(apps[:n_reg]) if rng.random() < 0.7 else rng.choice(apps)
         if x < 0.06:
-            perms = rng.choice([[app], [app, 1], [], [rng.choice(APPS)], [2, 16]])
+            perms = rng.choice([[app], [app, 1], [], [rng.choice(APPS)], [2, 16], [4, 5]])
             kind = rng.choice(["regp", "regc"])
             ops.append([kind, app, perms])
-            if kind == "regp" and valid_reg(app, perms, False):
+            if kind == "regp" and registration_valid(app, perms, False):
                 prov.add(app)
         elif x < 0.10:
             kind = rng.choice(["deregp", "deregc"])
             ops.append([kind, app])
             if kind == "deregp":
                 prov.discard(app)
-        elif x < 0.42:
+        elif x < 0.10 + p_add:
             now = L.now_its(utc)
             ts = now + rng.choice([0, 0, 0, -1000, -2000, -60000, 1000, 5000])
-            validity = rng.choice([0, 0, 1, 1, 2, 3, 5, 60, 1000, 100000])
-            loc = gen_loc(rng, cfg, variants, want_safe=rng.random() < 0.93)
+            if mode == "expire":
+                validity = rng.choice([0, 0, 1, 1, 2, 3])
+            else:
+                validity = rng.choice([0, 0, 1, 1, 2, 3, 5, 60, 1000, 100000])
+            loc = gen_loc(rng, cfg, region_bias if rng.random() < 0.7 else None)
             obj = rng.choice(pool) if rng.random() < 0.15 else small_message(rng)
             if ops and ops[-1][0] == "add" and rng.random() < 0.08:     # exact duplicate of the previous object
                 ops.append(list(ops[-1]))
@@ -408,10 +504,17 @@ def gen_history(rng, n_ops, variants, pool):
                 types_of[next_id] = obj_type(ops[-1][5])
                 live.append(next_id)
                 next_id += 1
-        elif x < 0.60:
-            i = rng.choice(live) if (live and rng.random() < 0.75) else rng.choice(
-                [rng.randrange(0, next_id + 1), next_id + 3])
-            if x < 0.50:
+        elif x < 0.28 + p_add:
+            r = rng.random()
+            if mode == "collide" and r < 0.5 and next_id:
+                i = rng.choice([a for a in apps[:n_reg]] + [next_id - 1])      # an identifier equal to an ITS-AID
+            elif stale and r < 0.35:
+                i = rng.choice(stale)                                          # an identifier of a vanished object
+            elif live and r < 0.8:
+                i = rng.choice(live)
+            else:
+                i = rng.choice([rng.randrange(0, next_id + 1), next_id + 3])
+            if rng.random() < 0.5:
                 t = types_of.get(i)
                 ops.append(["upd", app, i, small_message(rng, t) if (t is not None and rng.random() < 0.75)
                             else small_message(rng)])
@@ -419,16 +522,22 @@ def gen_history(rng, n_ops, variants, pool):
                 ops.append(["del", app, i])
                 if i in live and rng.random() < 0.9:
                     live.remove(i)
-        elif x < 0.80:
+                    stale.append(i)
+        elif x < 0.48 + p_add:
             types = rng.choice([[2], [1], [16], [2, 16], [1, 2, 16, 14, 3, 20], [14], [], [2, 99], [0]])
             prio = rng.choice([None, None, None, 0, 1, 255, 256, -1])
             order = rng.choice([None] * 18 + ["!", {"kind": "U", "keys": []}, {"kind": "L", "keys": []}])
             flt = None if rng.random() < 0.97 else "!"
             ops.append(["req", app, types, prio, order, flt])
-        elif x < 0.86:
+        elif x < 0.54 + p_add:
             ops.append(["gc"])
+            if mode == "expire":
+                stale += live[-3:]
         else:
-            ms = rng.choice([125, 250, 500, 875, 1000, 1000, 1125, 2000, 3000, 5000, 60000])
+            if mode == "expire":
+                ms = rng.choice([1000, 2000, 5000, 5000, 60000, 125, 875])
+            else:
+                ms = rng.choice([125, 250, 500, 875, 1000, 1000, 1125, 2000, 3000, 5000, 60000])
             utc += ms
             ops.append(["adv", ms])
     ops.append(["req", apps[0], [1, 2, 16, 14, 3, 20], None, None, None])
@@ -436,13 +545,16 @@ def gen_history(rng, n_ops, variants, pool):
 
 
 def boundary_histories(variants):
-    """scripted cases on every comparison constant of the model: expiry strictness, reactive trigger, area
-    thresholds t*t-1 / t*t per relevance code, altitude differences, duplicates, id reuse"""
+    """scripted cases on every comparison constant of the model and on the classes of histories the clauses quantify
+    over: expiry strictness (validity 0 / 1 / 2 s), reactive trigger, area thresholds t*t-1 / t*t per relevance code,
+    altitude differences, duplicates, identifiers equal to registered ITS-AIDs, maintenance passes that empty the
+    store followed by adds and by operations on stale identifiers"""
     out = []
     now0 = L.now_its(L.UTC0_MS)
     obj = L.ser({"cam": {"generationDeltaTime": 1}})
     obj2 = L.ser({"cam": {"generationDeltaTime": 2}})
     denm = L.ser({"denm": {"management": {}}})
+    vam = L.ser({"vam": {"generationDeltaTime": 3}})
     base = {"lat": 415000000, "lon": 21000000, "alt": 0, "relDist": 4}
 
     def loc(dlat=10 ** 6, dlon=0, alt=0, **kw):
@@ -457,6 +569,13 @@ def boundary_histories(variants):
         for trig in (875, 1000):
             out.append({"cfg": base, "ops": pre + [["add", 2, now0, loc(), val, obj], ["adv", adv], q, ["gc"], q,
                                                    ["adv", trig], ["add", 2, now0 + 10 ** 6, loc(), 100, obj2], q]})
+    # validity 0 / 1 next to longer ones, inside the area at an altitude both area rules keep (13) and outside
+    for where in (loc(300, 0, 13), loc()):
+        out.append({"cfg": base, "ops": pre + [["add", 2, now0, where, 0, obj], ["add", 2, now0, where, 1, obj2],
+                                               ["add", 2, now0, where, 5, obj], ["gc"], q, ["adv", 1000], ["gc"], q,
+                                               ["adv", 1000], ["gc"], q, ["adv", 4000], ["gc"], q,
+                                               ["add", 2, now0 + 6000, where, 0, obj2], q, ["adv", 1000],
+                                               ["add", 2, now0 + 7000, where, 3, obj], q]})
     # area thresholds and altitude differences (C12-KF1 region boundaries)
     for rel in range(8):
         cfg = dict(base, relDist=rel)
@@ -470,10 +589,43 @@ def boundary_histories(variants):
     # update keeps everything but the content; type mismatch and unknown id refused
     out.append({"cfg": base, "ops": pre + [["add", 2, now0 - 1000, loc(majO=77, minC=5), 50, obj], ["upd", 2, 0, obj2], q,
                                            ["upd", 2, 0, denm], ["upd", 2, 9, obj2], q]})
-    # refused requests leave no trace; unregistered add
+    # refused requests leave no trace; unregistered add; registrations the oracle has to refuse / accept itself
     out.append({"cfg": base, "ops": [["add", 2, now0, loc(), 50, obj], ["regp", 2, []], ["regp", 0, [0]], ["regp", 22, [22]],
-                                     ["regp", 1, [5]], ["regc", 4, [9]], ["regc", 3, [9]], ["req", 4, [2], None, None, None],
-                                     ["req", 3, [2], None, None, None]]})
+                                     ["regp", 1, [5]], ["regp", 5, [1]], ["regp", 21, [21]], ["regc", 4, [9]], ["regc", 3, [9]],
+                                     ["regc", 5, [2]], ["regc", 21, [21, 2]], ["regc", 22, [22]], ["regc", 2, []],
+                                     ["req", 4, [2], None, None, None], ["req", 3, [2], None, None, None]]})
+    # identifiers that equal registered ITS-AIDs: objects 0..16 exist, providers 1, 2, 3, 16 (and consumers 1, 2, 16)
+    # are registered; every identifier is updated, then deleted; the registries must not move and every provider
+    # must still be able to add
+    provs = [1, 2, 3, 16]
+    kinds = {1: denm, 2: obj, 3: L.ser({"poi": {"x": 1}}), 16: vam}
+    for where in (loc(), loc(300, 0, 13)):
+        ops = []
+        for a in provs:
+            ops += [["regp", a, [a]], ["regc", a, [a, 2]]]
+        for i in range(17):
+            a = provs[i % 4]
+            ops.append(["add", a, now0, where, 1000, kinds[a]])
+        for i in list(range(17)) + [1, 2]:
+            a = provs[i % 4]
+            ops.append(["upd", a, i, kinds[a]])
+        for i in (16, 3, 2, 1, 0, 5, 2, 16, 17):
+            ops.append(["del", provs[(i + 1) % 4], i])
+            ops.append(["add", provs[i % 4], now0, where, 1000, kinds[provs[i % 4]]])
+        ops.append(["req", 2, [1, 2, 3, 16], None, None, None])
+        out.append({"cfg": base, "ops": ops})
+    # a maintenance pass (explicit / reactive) that empties the store, then adds: identifiers go on, the stale
+    # identifiers are unknown to update / delete, the new objects are untouched
+    for gc in ("gc", "reactive"):
+        for n_old in (1, 2, 3):
+            ops = [["regp", 2, [2]], ["regp", 16, [16]], ["regc", 2, [2, 16]]]
+            ops += [["add", 2, now0, loc(), k % 2, obj] for k in range(n_old)]
+            ops += [["adv", 5000]] + ([["gc"]] if gc == "gc" else [["add", 16, now0, loc(), 0, vam]])
+            ops += [["req", 2, [2, 16], None, None, None], ["add", 16, now0 + 5000, loc(), 1000, vam],
+                    ["add", 2, now0 + 5000, loc(), 1000, obj2], ["gc"], ["del", 2, 0], ["upd", 2, 1, obj2], ["del", 16, n_old],
+                    ["req", 2, [2, 16], None, None, None], ["adv", 2000], ["gc"], ["add", 2, now0 + 7000, loc(), 0, obj],
+                    ["req", 2, [2, 16], None, None, None]]
+            out.append({"cfg": base, "ops": ops})
     return out
 
 
@@ -483,8 +635,9 @@ def load_corpus():
 
 def run(ctx):
     ctx.extra["rule"] = ("one evaluation = one interface operation executed on the real facility, judged by the reference "
-                         "map (response, database content, both registries) and compared with the Lean model; "
-                         "distinct_nontrivial counts distinct (operation kind, outcome, store size bucket) triples")
+                         "map (response, database content, both registries) and compared with the Lean model (answer "
+                         "line and state line: id counter, registries, row ids); distinct_nontrivial counts distinct "
+                         "(operation kind, outcome, store size bucket) triples")
     variants = detect_variants()
     ctx.extra["variant"] = {"C12-KF1": "area test repaired" if variants["areaFixed"] else "area test as written (code as is)",
                             "C12-KF2": "update/delete gated" if variants["gated"] else "update/delete not gated (code as is)"}
@@ -509,6 +662,11 @@ def run(ctx):
                 if op[0] == "add":
                     outcome = "refused" if hd[:2] == ["c", "-1"] else "stored"
                     size += outcome == "stored"
+                    ctx.cover("add_region:" + ("inside_relevance_distance" if within(h["cfg"]["relDist"], h["cfg"], op[3])
+                                               else "outside_relevance_distance")
+                              + ("/in_area" if in_area(h["cfg"], op[3]) else "/outside_altitude_band")
+                              + ("/kf1_region" if area_deletes_as_is(h["cfg"], op[3]) else "/kept_as_is"))
+                    ctx.cover("add_validity:" + (str(op[4]) if op[4] <= 2 else ">2"))
                 ctx.cover(f"op_{op[0]}:{outcome}")
                 ctx.nontrivial((op[0], outcome, min(size, 40) // 4))
             ctx.cover("history_len_" + ("<=30" if len(h["ops"]) <= 30 else "<=120" if len(h["ops"]) <= 120 else ">120"))
@@ -537,8 +695,8 @@ def replay(ctx, obj):
     hist = {"cfg": case["cfg"], "ops": case["ops"]}
     lines, states = run_real(hist)
     bad = judge(hist, lines, states)
-    for op, ln in list(zip(hist["ops"], lines))[-6:]:
-        print("  ", op[0], (op[1:4] if op[0] != "add" else op[1:3]), "->", ln[:120])
+    for op, ln, st in list(zip(hist["ops"], lines, states))[-6:]:
+        print("  ", op[0], (op[1:4] if op[0] != "add" else op[1:3]), "->", ln[:120], "|", st[3][:100])
     for k, what, fid in bad:
         print(f"  VIOLATED at op {k}: {what}" + (f"  [{fid}]" if fid else ""))
     return bool(bad)
